@@ -1017,9 +1017,13 @@ class DateTime(_BaseDateTime, dtypes.Timestamp):
             # object belongs to the schema and must not remember the data
             # it has seen.
             resolved = copy.copy(self)
-            resolved._prepare_check_time_zone_agnostic(
-                pandera_dtype=pandera_dtype, data_container=data_container
-            )
+            try:
+                resolved._prepare_check_time_zone_agnostic(
+                    pandera_dtype=pandera_dtype, data_container=data_container
+                )
+            except errors.ParserError:
+                # neither a time zone aware dtype nor time zone aware values
+                return False
             return super(DateTime, resolved).check(
                 pandera_dtype, data_container
             )
@@ -1039,9 +1043,9 @@ class DateTime(_BaseDateTime, dtypes.Timestamp):
             object.__setattr__(self, "tz", pandera_dtype.tz)
             object.__setattr__(self, "type", type_)
         # If the data has a mix of timezones, pandas defines the dtype as 'object`
-        elif all(
+        elif data_container is not None and all(
             isinstance(x, datetime.datetime) and x.tzinfo is not None
-            for x in data_container  # type: ignore
+            for x in data_container
         ):
             object.__setattr__(self, "type", np.dtype("O"))
         else:
